@@ -217,6 +217,10 @@ def apply_command(run, obj, dt, ref, op, wit, wire=None):
     prio, v = op
     valid = prio is None or (isinstance(prio, int) and 1 <= prio <= 16)
     before = (list(ref.slots), ref.pv())
+    bad_value = isinstance(v, tuple) and len(v) == 2 and v[0] == "not-in-enumeration"
+    if bad_value:
+        v = v[1]
+        valid = False
     if wire is None:
         try:
             obj.WriteProperty("presentValue", () if v is None else v, priority=prio)
@@ -254,6 +258,12 @@ def apply_command(run, obj, dt, ref, op, wit, wire=None):
             return False
         ref.slots[prio if prio is not None else 16] = None if v is None else norm(dt, v)
         run.count("commands_applied")
+    elif bad_value:
+        # a value the enumeration does not define: refused (then nothing may change - the comparison that follows sees to
+        # that), or taken as it is
+        run.count("undefined_enumeration_values_tried")
+        if ok and (prio is None or 1 <= prio <= 16):
+            ref.slots[prio if prio is not None else 16] = norm(dt, v)
     else:
         run.count("invalid_priorities_tried")
         if ok:
@@ -299,14 +309,25 @@ def run_history(run, cls, ops, wire=False, label="random", check_every=True):
 # minimum on / off times
 # ----------------------------------------------------------------------
 
-def min_on_off_history(run, rng, cls, on_time, off_time, nsteps):
-    """binary objects: a change to active holds slot 6 = active for minimumOnTime, to inactive for minimumOffTime"""
+def min_on_off_history(run, rng, cls, on_time, off_time, nsteps, cov=False):
+    """binary objects: a change to active holds slot 6 = active for minimumOnTime, to inactive for minimumOffTime.
+    cov: the object lives in a device with the change-of-value services and subscriptions to it come and go meanwhile"""
     CLOCK.reset()
     dt = datatype_of(registered(cls))
     obj = make_object(cls, dt)
     obj.minimumOnTime = on_time
     obj.minimumOffTime = off_time
-    wit = {"class": cls.__name__, "minimum_on_time": on_time, "minimum_off_time": off_time}
+    wit = {"class": cls.__name__, "minimum_on_time": on_time, "minimum_off_time": off_time, "cov_subscriptions": cov}
+    client = dev = None
+    if cov:
+        from bacpypes.apdu import SubscribeCOVRequest
+        obj.statusFlags = [0, 0, 0, 0]
+        lan = FaultNet("lan", Plan())
+        lan.frame_cap = 10 ** 9
+        dev = ServiceDevice(lan, 5)
+        dev.app.add_object(obj)
+        client = SyncClient(lan, 1)
+        CLOCK.settle()
     ref = Ref(norm(dt, obj.relinquishDefault))
     hold_until = [None]
     log = []
@@ -330,7 +351,19 @@ def min_on_off_history(run, rng, cls, on_time, off_time, nsteps):
 
     for k in range(nsteps):
         r = rng.random()
-        if r < 0.6:
+        if cov and r < 0.25:
+            # subscribe (for a short or a long while) or cancel; the unconfirmed notifications go to the client and are ignored
+            proc = rng.choice([1, 2])
+            req = SubscribeCOVRequest(subscriberProcessIdentifier=proc, monitoredObjectIdentifier=obj.objectIdentifier, destination=dev.address)
+            kind = rng.choice(["subscribe", "subscribe", "cancel"])
+            if kind == "subscribe":
+                req.issueConfirmedNotifications = False
+                req.lifetime = rng.choice([1, 2, 4, 30])
+            ack = client.call(req)
+            run.count("cov_subscribes" if kind == "subscribe" else "cov_cancellations", 1 if isinstance(ack, SimpleAckPDU) else 0)
+            ref_advance(CLOCK.now)
+            log.append((CLOCK.now - CLOCK.START, (kind, proc, getattr(req, "lifetime", None))))
+        elif r < 0.6:
             prio = rng.choice([1, 3, 5, 7, 8, 16, None])
             v = rng.choice(["active", "inactive", None])
             op = (prio, v)
@@ -378,7 +411,8 @@ def main():
     if thorough and run.args.shard is None:
         run.run_shards("rv.props.c17", timeout=3400)
         run.exhaustive = True
-        return run.finish(require=("histories", "comparisons", "commands_applied", "invalid_priorities_tried", "wire_reads", "min_on_off_histories"))
+        return run.finish(require=("histories", "comparisons", "commands_applied", "invalid_priorities_tried", "wire_reads", "min_on_off_histories",
+                                   "undefined_enumeration_values_tried", "cov_subscribes", "cov_cancellations"))
     rng = run.rng("c17")
     classes = cmd_classes()
     run.extra["commandable_classes"] = [c.__name__ for c in classes]
@@ -418,7 +452,11 @@ def main():
                         prio = None
                     else:
                         prio = rng.randrange(1, 17)
-                    ops.append((prio, rng.choice(vals + [None, None])))
+                    if issubclass(dt, Enumerated) and rng.random() < 0.08:
+                        top = max(dt.enumerations.values())
+                        ops.append((prio, ("not-in-enumeration", rng.choice([top + 1, top + 7, 250] + ([] if wire else ["bogus"])))))
+                    else:
+                        ops.append((prio, rng.choice(vals + [None, None])))
                 run.case((cls.__name__, wire, rep, run.shard[0]), sample={"class": cls.__name__, "via": "wire" if wire else "direct", "ops": [repr(o) for o in ops[:5]]},
                          sample_key=(cls.__name__, wire) if rep == 0 and cls in (classes[0], classes[-1]) else None)
                 run_history(run, cls, ops, wire=wire)
@@ -432,8 +470,12 @@ def main():
                 run.case(("minonoff", cls.__name__, on_t, off_t, rep, run.shard[0]), sample={"class": cls.__name__, "min_on": on_t, "min_off": off_t},
                          sample_key=("mo", on_t == 0))
                 min_on_off_history(run, rng, cls, on_t, off_t, 60)
+                if (on_t or off_t) and (thorough or (on_t, off_t) in ((1, 2), (3, 5), (10, 0), (0, 10), (3, 10))):
+                    run.case(("minonoff-cov", cls.__name__, on_t, off_t, rep, run.shard[0]), sample=None)
+                    min_on_off_history(run, rng, cls, on_t, off_t, 80, cov=True)
     run.exhaustive = True
-    run.finish(require=("histories", "comparisons", "commands_applied", "invalid_priorities_tried", "wire_reads", "min_on_off_histories"))
+    run.finish(require=("histories", "comparisons", "commands_applied", "invalid_priorities_tried", "wire_reads", "min_on_off_histories",
+                                   "undefined_enumeration_values_tried", "cov_subscribes", "cov_cancellations"))
 
 
 if __name__ == "__main__":
